@@ -145,6 +145,7 @@ TABLE.update({
     "c06_inlined_any_as_everything.diff": ("contracts.c16b", "_lower_inlined_bundle_condition", "BundleAnyExpr"),
     "c06_inlinable_signal_right_side.diff": ("contracts.c16b", "_is_inlinable_bundle_condition", None),
     "c06_inlined_operator_fixed.diff": ("contracts.c16b", "_lower_inlined_bundle_condition", "BundleAllExpr"),
+    "c01_runtime_literal_value_zero.diff": ("e2e", 'Signal x = ("signal-X", 5);\nSignal r = ("signal-A", x + 1);\nSignal q = r * 2;\n', None),
     "c08_preserved_shares_network_zero.diff": ("contracts.c12", "_restore_preserved_connection", None),
     "c08_preserved_routing_failure_ignored.diff": ("contracts.c12", "_restore_preserved_connection", None),
     "c08_preserved_span_doubled.diff": ("contracts.c12", "_restore_preserved_connection", None),
@@ -226,6 +227,19 @@ if __name__ == "__main__":
     print(br.error)
     print("RESULT", 1, 1 if br.violations else 0)
 ''' % str(VERIF)
+# patches whose contract names a function the reverse patch removes (contract drift = undecided): refuted by the end-to-end judge
+# on the given program instead (bounded: one program, all int32 inputs by SMT)
+E2E_RUNNER = r'''
+import sys
+sys.path.insert(0, %r)
+from bounded import e2e
+bad = 0
+for opt in (True, False):
+    pv = e2e.judge(sys.argv[2], optimize=opt)
+    print(pv.status, [(o.name, o.status) for o in pv.outputs])
+    bad += sum(1 for o in pv.outputs if o.status in ("mismatch", "crosstalk")) + (1 if pv.status not in ("judged",) else 0)
+print("RESULT", 1, 1 if bad else 0)
+''' % str(VERIF)
 GUARD_RUNNER = r'''
 import sys
 sys.path.insert(0, %r)
@@ -266,7 +280,7 @@ def main():
             if r.returncode:
                 print(f"{patch}: PATCH DOES NOT APPLY (contract drift of the self-test)"); fails += 1; continue
             env = dict(os.environ, FACTO_REPO=str(repo), PYTHONPATH=f"{VERIF}:{repo}", PYTHONHASHSEED="0")
-            runner = {"guard": GUARD_RUNNER, "box": BOX_RUNNER}.get(mod, RUNNER)
+            runner = {"guard": GUARD_RUNNER, "box": BOX_RUNNER, "e2e": E2E_RUNNER}.get(mod, RUNNER)
             if mod == "box":  # the pool of run_contract_enum needs an importable main module
                 (tmp / "box_runner.py").write_text(runner)
                 args = [str(VERIF / ".venv/bin/python"), str(tmp / "box_runner.py"), mod, pat]
